@@ -200,16 +200,19 @@ theorem getD_mem_or_default (l : List Nat) (t : Nat) : l.getD t 0 ∈ l ∨ l.ge
     rw [List.getD_eq_getElem?_getD, List.getElem?_eq_none (by omega)]
     rfl
 
-/-- The extra conditions of the strict decoder on the coded values: the folded value fits 32 bits
-and the decoded value is not `-2^31` (RFC 9639 section 9.2.7.3). -/
+/-- The extra conditions of the strict decoder: `(block size >> partition order)` is LARGER than the
+predictor order (RFC 9639 section 9.2.7; `Residual.WF`, like the repository's own parser, allows equality),
+and on the coded values: the folded value fits 32 bits and the decoded value is not `-2^31` (RFC 9639
+section 9.2.7.3). -/
 def Residual.Strict (r : Residual) : Prop :=
+  r.warmup < r.blockSize >>> r.order ∧
   ∀ t, r.warmup ≤ t → t < r.blockSize →
     r.quotients.getD t 0 * 2 ^ (r.params.getD (t / r.partLen) 0) + r.remainders.getD t 0 < 2 ^ 32 ∧
     Residual.val r t ≠ -(2 ^ 31 : Int)
 
 theorem resOk_of_WF (r : Residual) (hwf : r.WF) (hs : Residual.Strict r) : ResOk r := by
   obtain ⟨ho, hpl, hdvd, hw, hpos, hql, hrl, hp14, hz, hrem⟩ := hwf
-  refine ⟨ho, ?_, hw, ?_, hrem, fun t h1 h2 => (hs t h1 h2).1, fun t h1 h2 => (hs t h1 h2).2⟩
+  refine ⟨ho, ?_, hw, ?_, hrem, fun t h1 h2 => (hs.2 t h1 h2).1, fun t h1 h2 => (hs.2 t h1 h2).2⟩
   · intro j hj
     rcases getD_mem_or_default r.params j with h | h
     · exact hp14 _ h
@@ -252,7 +255,10 @@ theorem readResidual_bits (r : Residual) (n w : Nat) (hwf : r.WF) (hn : r.blockS
     omega
   rw [if_neg hmod]
   rw [← partLen_eq]
-  have hlt : ¬ r.partLen < r.warmup := by omega
+  have hlt : ¬ r.partLen ≤ r.warmup := by
+    have := hs.1
+    unfold Residual.partLen
+    omega
   rw [if_neg hlt]
   unfold Residual.nparts
   rw [List.range_eq_range', readPartitions_parts r hok (2 ^ r.order) 0 (by omega) k]
